@@ -9,7 +9,7 @@
 // 0 = default, 1 = a counting codec installed through osm.CustomJSONMarshaler/Unmarshaler,
 // 2 = a "reformatting" codec: semantically equal to encoding/json but syntactically different
 // (indented output, no HTML escaping, map entries in descending key order, decoding through a
-// json.Decoder), so that helpers which bypass the configured codec or depend on the bytes it
+// json.Decoder with UseNumber: numbers in interface{} values are json.Number), so that helpers which bypass the configured codec or depend on the bytes it
 // produces are exposed.
 package main
 
@@ -84,6 +84,7 @@ func (reformatCodec) Marshal(v interface{}) ([]byte, error) {
 func (reformatCodec) Unmarshal(data []byte, v interface{}) error {
 	counting.unmarshals++
 	d := json.NewDecoder(bytes.NewReader(data))
+	d.UseNumber() // numbers stored in interface{} values arrive as json.Number, not float64
 	if err := d.Decode(v); err != nil {
 		return err
 	}
@@ -113,8 +114,12 @@ func install(cfg int) {
 
 // ---------------------------------------------------------------- generators
 
-var strPool = []string{"", "a", "u1", "highway", "residential", "name", "Main St", "é ü 北", "<b>&\"q\"</b>", "<nil>", "null", "line\nbreak", "back\\slash", "0.6", "way"}
-var keyPool = []string{"highway", "name", "ref", "a", "b", "source", "addr:street", "k ü", "type", "id", "", "Tags"}
+// valid UTF-8 only (encoding/json replaces invalid bytes by U+FFFD, a text-level matter), but
+// including everything Go's and JSON's string syntaxes treat differently: \a \v \b \f, other C0
+// controls, DEL, U+2028/U+2029, non-printable supplementary-plane runes, emoji.
+var strPool = []string{"", "a", "u1", "highway", "residential", "name", "Main St", "é ü 北", "<b>&\"q\"</b>", "<nil>", "null", "line\nbreak", "back\\slash", "0.6", "way",
+	"bell\a", "vt\vtab", "bs\b ff\f cr\r", "\x01\x02\x1f", "del\x7f", "ls\u2028ps\u2029", "pua\U000f0000", "tag\U000e0001", "emoji 🗺", "nul\x00end", "\u00ad soft hyphen", "\ufeff bom"}
+var keyPool = []string{"highway", "name", "ref", "a", "b", "source", "addr:street", "k ü", "type", "id", "", "Tags", "k\a", "k\v", "k\x7f", "k\x1e", "k\U000f0000", "k\u2028"}
 var intPool = []int64{1, 2, 3, 7, 42, 1000, 65535, 65536, 1 << 31, 1<<53 + 1, 1<<63 - 1, -1, -5}
 var decPool = []string{"0.5", "1.25", "-0.125", "12.375", "51.5074", "-0.1278", "179.9999999", "-89.1234567", "1", "100", "0.0000001", "123456.789", "-180", "90", "1e-7", "2.5e10"}
 
@@ -503,12 +508,12 @@ func main() {
 	rng := wire.Rng(a.Seed)
 	w := wire.NewWriter("C05", a.Seed, a.Tier)
 	w.Rule = "typed generator over node/way/relation/changeset/note/user/bounds and OSM/Change containers: every optional part present with probability p in {0,0.3,0.7,1} plus single-field sweeps; each value marshalled and its own output unmarshalled under three codec configurations (default, counting custom codec, reformatting custom codec); independently written osmjson documents (version number/string/absent, unknown keys, shuffled keys, keys spelled in another case, decoy duplicate keys, Overpass lowercase bounds, random whitespace/escapes) and single-fault documents. distinct = distinct token streams; trivial = all-zero values."
-	nOSM, nElem, nDoc, nBad, nChange := 16, 8, 40, 40, 6
+	nOSM, nElem, nDoc, nBad, nChange, nDirect := 16, 8, 40, 40, 6, 6
 	if a.Tier == "thorough" {
-		nOSM, nElem, nDoc, nBad, nChange = 200, 80, 500, 400, 60
+		nOSM, nElem, nDoc, nBad, nChange, nDirect = 200, 80, 500, 400, 60, 60
 	}
 	sc := func(n int) int { return int(float64(n)*a.Scale + 0.5) }
-	nOSM, nElem, nDoc, nBad, nChange = sc(nOSM), sc(nElem), sc(nDoc), sc(nBad), sc(nChange)
+	nOSM, nElem, nDoc, nBad, nChange, nDirect = sc(nOSM), sc(nElem), sc(nDoc), sc(nBad), sc(nChange), sc(nDirect)
 
 	addRound := func(tag, sel int, v interface{}, class string, nElems int) {
 		var base *obs
@@ -633,6 +638,18 @@ func main() {
 			w.Add(c)
 		}
 	}
+	// 2c. the MarshalJSON methods called DIRECTLY: the returned bytes must be JSON for the same
+	//     tree as json.Marshal gives, and must stay what they were while other values are
+	//     marshalled afterwards (a caller may keep them). Judged on the Go side.
+	for i := 0; i < nDirect; i++ {
+		for cfg := range configs {
+			g := &gen{rng: rng, p: 0.8, annot: true}
+			c := &wire.Case{Class: "go-only-direct-marshal/" + configs[cfg]}
+			c.Int(5)
+			c.OracleFail, c.Desc = directMarshal(cfg, g)
+			w.Add(c)
+		}
+	}
 	// 3. independently written documents
 	for i := 0; i < nDoc; i++ {
 		dg := &docGen{rng: rng, p: []float64{0.2, 0.5, 0.8, 1}[i%4]}
@@ -672,4 +689,95 @@ func main() {
 		fmt.Fprintln(os.Stderr, err)
 		os.Exit(1)
 	}
+}
+
+// directMarshal calls the package's MarshalJSON methods directly, keeps every returned slice,
+// marshals further values, and then checks each kept slice: unchanged since it was returned,
+// valid JSON for the independent reader, and the same tree as json.Marshal of that value.
+func directMarshal(cfg int, g *gen) (string, interface{}) {
+	install(cfg)
+	defer install(0)
+	type kept struct {
+		name string
+		b    []byte
+		cp   []byte
+		v    interface{}
+	}
+	var ks []kept
+	keep := func(name string, v interface{}, b []byte, err error) string {
+		if err != nil {
+			return name + ".MarshalJSON: " + err.Error()
+		}
+		ks = append(ks, kept{name, b, append([]byte(nil), b...), v})
+		return ""
+	}
+	way := g.element(1).(*osm.Way)
+	way.Nodes = append(way.Nodes, osm.WayNode{ID: 77})
+	rel := g.element(2).(*osm.Relation)
+	rel.Members = append(rel.Members, osm.Member{Type: osm.TypeNode, Ref: 5, Role: g.str()})
+	node := g.element(0).(*osm.Node)
+	node.Tags = append(osm.Tags{{Key: "direct", Value: g.str()}}, node.Tags...)
+	steps := []func() string{
+		func() string { o := g.osm(); b, err := o.MarshalJSON(); return keep("OSM", o, b, err) },
+		func() string { b, err := node.Tags.MarshalJSON(); return keep("Tags", node.Tags, b, err) },
+		func() string { b, err := way.Nodes.MarshalJSON(); return keep("WayNodes", way.Nodes, b, err) },
+		func() string { b, err := rel.Members.MarshalJSON(); return keep("Members", rel.Members, b, err) },
+		func() string {
+			d := osm.Date{Time: time.Unix(1e9+int64(g.rng.Intn(1000)), 0).UTC()}
+			b, err := d.MarshalJSON()
+			return keep("Date", d, b, err)
+		},
+		func() string { o := g.osm(); b, err := o.MarshalJSON(); return keep("OSM", o, b, err) },
+	}
+	for _, st := range steps {
+		if msg := st(); msg != "" {
+			return msg, map[string]interface{}{"codec": configs[cfg]}
+		}
+		// something else is marshalled in between
+		if _, err := json.Marshal(g.osm()); err != nil {
+			return "marshal failed: " + err.Error(), map[string]interface{}{"codec": configs[cfg]}
+		}
+	}
+	desc := map[string]interface{}{"codec": configs[cfg], "sequence": "OSM, Tags, WayNodes, Members, Date, OSM .MarshalJSON() called directly, json.Marshal of another OSM after each"}
+	for _, k := range ks {
+		desc["value"], desc["returned"], desc["now"] = fmt.Sprintf("%+v", k.v), string(k.cp), string(k.b)
+		if !bytes.Equal(k.b, k.cp) {
+			return k.name + ".MarshalJSON: the returned bytes changed after later marshal calls", desc
+		}
+		t1, err := readTree(k.b)
+		if err != nil {
+			return k.name + ".MarshalJSON: returned bytes are not JSON: " + err.Error(), desc
+		}
+		ref, err := json.Marshal(k.v)
+		if err != nil {
+			return k.name + ": json.Marshal failed: " + err.Error(), desc
+		}
+		t2, err := readTree(ref)
+		if err != nil || !treeEqual(canonTagsTop(t1), canonTagsTop(t2)) {
+			return k.name + ".MarshalJSON: direct result and json.Marshal disagree", desc
+		}
+	}
+	delete(desc, "value")
+	delete(desc, "returned")
+	delete(desc, "now")
+	return "", desc
+}
+
+// canonTagsTop: like canonTags, and also sorts the keys of the top object when it is a bare
+// tags object (direct Tags.MarshalJSON result).
+func canonTagsTop(j *jnode) *jnode {
+	w := jobj().set("tags", j.clone())
+	canonTags(w)
+	if j.k == jObj && len(j.arr) == 0 {
+		allStr := true
+		for _, v := range j.vals {
+			if v.k != jStr {
+				allStr = false
+			}
+		}
+		if allStr {
+			return w.vals[0]
+		}
+	}
+	return canonTags(j.clone())
 }
